@@ -11,6 +11,7 @@ SQL is read from the *values* of the string literals passed to ``execute`` (a sm
 regular expressions on source text).
 """
 import ast
+import copy
 
 from .. import astx, cfg as cfgm
 from ..core import AnalysisError
@@ -164,9 +165,8 @@ class Sql:
             self.table = None
 
 
-def parse_sql(call):
-    """Sql object for an execute-family call, or None if its first argument is not a literal."""
-    a = astx.arg(call, 0, 'sql')
+def sql_of(a):
+    """Sql object for a SQL-text expression, or None if it is not a literal."""
     if a is None:
         return None
     parts = sql_parts(a)
@@ -176,6 +176,11 @@ def parse_sql(call):
     if not toks or not isinstance(toks[0], str):
         return None
     return Sql(toks)
+
+
+def parse_sql(call):
+    """Sql object for an execute-family call, or None if its first argument is not a literal."""
+    return sql_of(astx.arg(call, 0, 'sql'))
 
 
 # --------------------------------------------------------------------------- per-function context
@@ -329,6 +334,184 @@ def _params(ctx, call, at):
     return p if isinstance(p, (ast.Tuple, ast.List)) else None
 
 
+# ---- extracted helper methods: a call `self._helper(cursor, ...)` is replaced by the statements the
+# helper executes, expressed in the caller's terms (parameters substituted by the caller's arguments)
+def _subst(e, env):
+    """Copy of expression *e* with parameter names replaced by the caller's argument nodes."""
+    if e is None or not env:
+        return e
+    if isinstance(e, ast.Name) and e.id in env:
+        return env[e.id]
+    if not any(isinstance(n, ast.Name) and n.id in env for n in ast.walk(e)):
+        return e
+    new = copy.copy(e)
+    for field, val in ast.iter_fields(e):
+        if isinstance(val, ast.AST):
+            setattr(new, field, _subst(val, env))
+        elif isinstance(val, list):
+            setattr(new, field, [_subst(v, env) if isinstance(v, ast.AST) else v for v in val])
+    return new
+
+
+def _bind(hfn, call):
+    """parameter name -> caller expression for a call `self.h(...)`, or None if it cannot be matched."""
+    a = hfn.node.args
+    if a.vararg or a.kwarg or a.posonlyargs or a.kwonlyargs:
+        return None
+    names = [x.arg for x in a.args]
+    defaults = dict(zip(names[len(names) - len(a.defaults):], a.defaults))
+    if not names or names[0] != 'self':
+        return None
+    names = names[1:]
+    if any(isinstance(v, ast.Starred) for v in call.args) or any(k.arg is None for k in call.keywords):
+        return None
+    env = {}
+    for i, v in enumerate(call.args):
+        if i >= len(names):
+            return None
+        env[names[i]] = v
+    for k in call.keywords:
+        if k.arg not in names or k.arg in env:
+            return None
+        env[k.arg] = k.value
+    for n in names:
+        if n not in env:
+            if n not in defaults:
+                return None
+            env[n] = defaults[n]
+    return env
+
+
+def _self_method(repo, fn, call):
+    """The method of fn's own class that `self.<name>(...)` calls, or None."""
+    f = call.func
+    if not (isinstance(f, ast.Attribute) and isinstance(f.value, ast.Name) and f.value.id == 'self'):
+        return None
+    cls = fn.qualname.split('.')[0]
+    return fn.module.funcs.get(f'{cls}.{f.attr}')
+
+
+def _touches_db(fn):
+    if exec_calls(fn):
+        return True
+    for c in astx.calls(fn.node):
+        if isinstance(c.func, ast.Attribute) and c.func.attr in ('commit', 'rollback', 'executescript', 'cursor'):
+            return True
+    for st in astx.walk_stmts(fn.node.body):
+        if isinstance(st, ast.With) and any(astx.path(it.context_expr) in CONN_PATHS for it in st.items):
+            return True
+    return False
+
+
+def _inline_local(e, ctx, at, params, depth=0):
+    """Replace helper-local names (single assignment) inside *e* by their defining expressions."""
+    if depth > 3:
+        return e
+    env = {}
+    for n in ast.walk(e):
+        if isinstance(n, ast.Name) and n.id not in params and n.id != 'self' and n.id not in env:
+            v = ctx.rd.value(at, n.id)
+            if v is not None:
+                d = next(iter(ctx.rd.defs(at, n.id)))
+                env[n.id] = _inline_local(v, ctx, d, params, depth + 1)
+    return _subst(e, env)
+
+
+def helper_summary(repo, hfn):
+    """None: the helper does not touch the database.  'opaque': it does, in a shape not recognised.
+    Otherwise a list of (receiver, sql-expr, params-expr) in the helper's own terms, for a helper that
+    executes its statements unconditionally on a cursor it receives as a parameter."""
+    if not _touches_db(hfn):
+        for c in astx.calls(hfn.node):
+            sub = _self_method(repo, hfn, c)
+            if sub is not None and sub is not hfn and _touches_db(sub):
+                return 'opaque'
+        return None
+    calls = exec_calls(hfn)
+    if not calls:
+        return 'opaque'
+    ctx = Ctx(hfn)
+    g = ctx.g
+    pnames = {x.arg for x in hfn.node.args.args} - {'self'}
+    for n in g.nodes:
+        if n.kind == 'except' or (n.kind == 'with' and ctx.with_conn(n.ast) is not None):
+            return 'opaque'
+    for c in astx.calls(hfn.node):
+        if isinstance(c.func, ast.Attribute) and c.func.attr in ENDERS + ('cursor',):
+            return 'opaque'
+        sub = _self_method(repo, hfn, c)
+        if sub is not None and _touches_db(sub):
+            return 'opaque'
+    out = []
+    for c in calls:
+        ns = ctx.node_of(c)
+        if len(ns) != 1 or g.must_pass([g.entry], [g.exit], ns, labels=cfgm.noexc) is not None:
+            return 'opaque'
+        at = ns[0]
+        r = astx.receiver(c)
+        if not (isinstance(r, ast.Name) and r.id in pnames and ctx.rd.defs(at, r.id) == {g.entry}):
+            return 'opaque'
+        for nm in pnames:
+            if ctx.rd.defs(at, nm) != {g.entry}:
+                return 'opaque'
+        sqlarg = astx.arg(c, 0, 'sql')
+        par = astx.arg(c, 1, 'parameters')
+        sqlarg = _inline_local(sqlarg, ctx, at, pnames) if sqlarg is not None else None
+        par = _inline_local(par, ctx, at, pnames) if par is not None else None
+        out.append((r, sqlarg, par))
+    return out
+
+
+class Ev:
+    """One SQL statement executed at call node *anchor* of the analysed function."""
+
+    def __init__(self, anchor, recv, sql, params, via=None):
+        self.anchor, self.recv, self.sql, self.params, self.via = anchor, recv, sql, params, via
+
+
+def collect_events(repo, fn, ctx):
+    """(events in source order, problems) for a function; helper calls are expanded one level."""
+    evs, problems = [], []
+    direct = {id(c) for c in exec_calls(fn)}
+    for st in astx.walk_stmts(fn.node.body):
+        if isinstance(st, (ast.If, ast.While)):
+            exprs = [st.test]
+        elif isinstance(st, (ast.For, ast.AsyncFor)):
+            exprs = [st.iter]
+        elif isinstance(st, (ast.With, ast.AsyncWith)):
+            exprs = [it.context_expr for it in st.items]
+        elif isinstance(st, (ast.Try, ast.FunctionDef, ast.AsyncFunctionDef, ast.ClassDef)):
+            exprs = []
+        elif isinstance(st, ast.Match):
+            exprs = [st.subject]
+        else:
+            exprs = [st]
+        for e in exprs:
+            for c in astx.calls(e):
+                if id(c) in direct:
+                    at = ctx.node_of(c)[0]
+                    evs.append(Ev(c, astx.receiver(c), parse_sql(c), _params(ctx, c, at)))
+                    continue
+                hfn = _self_method(repo, fn, c)
+                if hfn is None or hfn is fn:
+                    continue
+                summ = helper_summary(repo, hfn)
+                if summ is None:
+                    continue
+                env = _bind(hfn, c) if summ != 'opaque' else None
+                if env is None:
+                    problems.append((c, f'helper {hfn.qualname} touches the database in a shape the checker '
+                                     'cannot express at the call site'))
+                    continue
+                for r, sqlarg, par in summ:
+                    par = _subst(par, env)
+                    if isinstance(par, ast.Name):
+                        par = ctx.rd.value(ctx.node_of(c)[0], par.id)
+                    evs.append(Ev(c, _subst(r, env), sql_of(_subst(sqlarg, env)),
+                                  par if isinstance(par, (ast.Tuple, ast.List)) else None, via=hfn.qualname))
+    return evs, problems
+
+
 @rule('C18.txn', floor=4)
 def txn(repo, out):
     """Case-table INSERT and global_iterations INSERT form one transaction linked by cursor.lastrowid."""
@@ -337,140 +520,185 @@ def txn(repo, out):
     seen_tables = {}
     for kind in KINDS:
         fn = repo.func(REC, f'{CLS}.record_iteration_{kind}')
-        ctx = Ctx(fn)
-        g = ctx.g
-        case_ins, glob_ins, others = [], [], []
-        undecided = False
-        for c in exec_calls(fn):
-            s = parse_sql(c)
-            if s is None or s.table is None or not isinstance(s.table, str):
-                out.unsure(fn, c, 'SQL text of this statement is not a literal the checker can read')
-                undecided = True
-                continue
-            if s.verb in ('INSERT', 'REPLACE') and s.table in ctabs.values():
-                case_ins.append((c, s))
-            elif s.verb in ('INSERT', 'REPLACE') and s.table == GLOBAL:
-                glob_ins.append((c, s))
-            else:
-                others.append((c, s))
-        if undecided:
-            continue
-        if len(case_ins) == 1 and not glob_ins:
-            out.bad(fn, case_ins[0][0], f'case row is inserted into {case_ins[0][1].table} but no row is '
-                    f'inserted into {GLOBAL}: the case is invisible to / inconsistent for the reader',
-                    key='pair-missing-global')
-            continue
-        if len(glob_ins) == 1 and not case_ins:
-            out.bad(fn, glob_ins[0][0], f'{GLOBAL} row is inserted but no case-table row', key='pair-missing-case')
-            continue
-        if len(case_ins) != 1 or len(glob_ins) != 1:
-            out.unsure(fn, fn.node, f'expected one case INSERT and one {GLOBAL} INSERT, found '
-                       f'{len(case_ins)} and {len(glob_ins)}')
-            continue
-        (cc, cs), (gc, gs) = case_ins[0], glob_ins[0]
-        cn, gn = ctx.node_of(cc), ctx.node_of(gc)
-        if len(cn) != 1 or len(gn) != 1:
-            out.unsure(fn, cc, 'inserts are duplicated by a finally block; shape not recognised')
-            continue
-        cn, gn = cn[0], gn[0]
-        seen_tables.setdefault(cs.table, []).append(kind)
-
-        # A. one transaction of the right connection
-        c_conn = ctx.conn_of(astx.receiver(cc), cn)
-        g_conn = ctx.conn_of(astx.receiver(gc), gn)
-        if c_conn is None or g_conn is None:
-            out.unsure(fn, cc if c_conn is None else gc, 'cannot resolve the connection of this cursor')
-            continue
-        if c_conn != g_conn:
-            out.bad(fn, gc, f'the two inserts go through different connections ({c_conn} / {g_conn}): '
-                    'they can never be one transaction', key='pair-one-transaction')
-            continue
-        w = ctx.txn_with(cc, c_conn)
-        if w is None or not lex_inside(gc, w, 'body'):
-            which = cc if w is None else gc
-            has_commit = any(astx.callee_attr(c) == 'commit' for c in astx.calls(fn.node))
-            if has_commit:
-                out.unsure(fn, which, 'inserts are not inside one `with <connection>`; explicit commit() '
-                           'protocol not recognised')
-            else:
-                out.bad(fn, which, f'this INSERT is not inside the `with {c_conn}` transaction of the other '
-                        'insert of the pair: a kill between the two commits leaves a case row without its '
-                        f'{GLOBAL} row (or vice versa)', key='pair-one-transaction')
-            continue
-
-        # B. order: case row first on every path
-        wit = g.dominated_by(gn, [cn])
-        if wit is not None:
-            out.bad(fn, gc, f'{GLOBAL} row can be written without the case row having been inserted first '
-                    f'(lastrowid is then stale): {g.fmt_path(wit)}', key='pair-order')
-            continue
-
-        # C. walk the region between the two inserts
-        verdict = _between(ctx, fn, w, cn, gn, cc, gc, c_conn)
-        if verdict is not None:
-            kind_, node, why, key = verdict
-            (out.bad if kind_ == 'bad' else out.unsure)(fn, node, why, **({'key': key} if kind_ == 'bad' else {}))
-            continue
-
-        # D. the link: rowid parameter is lastrowid of the cursor that executed the case insert
-        params = _params(ctx, gc, gn)
-        if params is None or 'rowid' not in gs.cols or 'record_type' not in gs.cols or \
-                len(params.elts) != len(gs.cols):
-            out.unsure(fn, gc, f'parameters/columns of the {GLOBAL} insert not recognised')
-            continue
-        cur_case = ctx.cursor_id(astx.receiver(cc), cn)
-        rowid = params.elts[gs.cols.index('rowid')]
-        at = gn
-        hops = 0
-        while isinstance(rowid, ast.Name) and hops < 3:
-            ds = ctx.rd.defs(at, rowid.id)
-            v = ctx.rd.value(at, rowid.id)
-            if v is None or len(ds) != 1:
-                break
-            d = next(iter(ds))
-            if g.dominated_by(d, [cn]) is not None:
-                out.bad(fn, d.ast, f'`{rowid.id}` (used as rowid of the {GLOBAL} row) is computed before the '
-                        'case INSERT ran', key='rowid-link')
-                rowid = None
-                break
-            rowid, at = v, d
-            hops += 1
-        if rowid is None:
-            continue
-        if not (isinstance(rowid, ast.Attribute) and rowid.attr == 'lastrowid'):
-            out.bad(fn, gc, f'rowid of the {GLOBAL} row is `{astx.src(rowid)}`, not `lastrowid` of the cursor '
-                    f'that inserted the case row: the row points at another (or no) case of {cs.table}',
-                    key='rowid-link')
-            continue
-        cur_link = ctx.cursor_id(rowid.value, at)
-        if cur_case is None or cur_link is None or cur_case != cur_link:
-            out.bad(fn, gc, f'`{astx.src(rowid)}` is not read from the cursor object that executed the case '
-                    f'INSERT (`{astx.src(astx.receiver(cc))}.execute`): lastrowid is unrelated to the new '
-                    'case row', key='rowid-link')
-            continue
-
-        # E. record_type literal names the table the case row went to
-        rt = params.elts[gs.cols.index('record_type')]
-        rts = astx.const_str(rt)
-        if rts is None:
-            out.unsure(fn, gc, 'record_type parameter is not a string literal')
-            continue
-        if ctabs.get(rts) != cs.table:
-            out.bad(fn, gc, f"record_type {rts!r} makes the reader look up rowid in {ctabs.get(rts)!r} but the "
-                    f'case row was inserted into {cs.table}', key='record-type-table')
-            continue
-        out.ok(fn, w, f'{cs.table} + {GLOBAL}({rts!r}, {astx.src(rowid)}) in one `with {c_conn}`; no way out '
-               'of the transaction between them')
+        _pair(repo, out, fn, fn, {}, ctabs, kind, seen_tables, 0)
     for t, ks in seen_tables.items():
         if len(ks) > 1:
             f0 = repo.func(REC, f'{CLS}.record_iteration_{ks[1]}')
             out.bad(f0, f0.node, f'{ks} all insert into {t}', key='shared-case-table')
 
 
-def _between(ctx, fn, w, cn, gn, cc, gc, conn):
+def _whole_pair_helper(repo, fn, ctx):
+    """(helper Func, env) when fn delegates the complete transaction to exactly one helper call."""
+    found = []
+    for c in astx.calls(fn.node):
+        hfn = _self_method(repo, fn, c)
+        if hfn is not None and hfn is not fn and helper_summary(repo, hfn) == 'opaque':
+            found.append((hfn, c))
+    if len(found) != 1:
+        return None
+    hfn, c = found[0]
+    env = _bind(hfn, c)
+    if env is None:
+        return None
+    # the helper must not rebind the parameters whose caller values are substituted
+    for st in astx.walk_stmts(hfn.node.body):
+        for t in astx.assigned_targets(st):
+            if isinstance(t, ast.Name) and t.id in env:
+                return None
+    return hfn, env
+
+
+def _pair(repo, out, rfn, fn, env, ctabs, kind, seen_tables, depth):
+    """Decide the pair clauses for function *fn* (reported against *rfn*), parameters bound by *env*."""
+    ctx = Ctx(fn)
+    g = ctx.g
+    evs, problems = collect_events(repo, fn, ctx)
+    for e in evs:
+        if env:
+            e.recv = _subst(e.recv, env) if not isinstance(e.recv, ast.Name) else e.recv
+            if e.via is None:
+                e.sql = sql_of(_subst(astx.arg(e.anchor, 0, 'sql'), env))
+            e.params = _subst(e.params, env)
+    pairish = [e for e in evs if e.sql is not None and e.sql.verb in ('INSERT', 'REPLACE') and
+               (e.sql.table == GLOBAL or e.sql.table in ctabs.values())]
+    if not pairish and problems and depth == 0:
+        hp = _whole_pair_helper(repo, fn, ctx)
+        if hp is not None:
+            _pair(repo, out, rfn, hp[0], hp[1], ctabs, kind, seen_tables, depth + 1)
+            return
+    if problems:
+        for node, why in problems:
+            out.unsure(rfn, node, why)
+        return
+    case_ins, glob_ins = [], []
+    undecided = False
+    for e in evs:
+        s = e.sql
+        if s is None or s.table is None or not isinstance(s.table, str):
+            out.unsure(rfn, e.anchor, 'SQL text of this statement is not a literal the checker can read')
+            undecided = True
+        elif s.verb in ('INSERT', 'REPLACE') and s.table in ctabs.values():
+            case_ins.append(e)
+        elif s.verb in ('INSERT', 'REPLACE') and s.table == GLOBAL:
+            glob_ins.append(e)
+    if undecided:
+        return
+    if len(case_ins) == 1 and not glob_ins:
+        out.bad(rfn, case_ins[0].anchor, f'case row is inserted into {case_ins[0].sql.table} but no row is '
+                f'inserted into {GLOBAL}: the case is invisible to / inconsistent for the reader',
+                key='pair-missing-global')
+        return
+    if len(glob_ins) == 1 and not case_ins:
+        out.bad(rfn, glob_ins[0].anchor, f'{GLOBAL} row is inserted but no case-table row', key='pair-missing-case')
+        return
+    if len(case_ins) != 1 or len(glob_ins) != 1:
+        out.unsure(rfn, fn.node, f'expected one case INSERT and one {GLOBAL} INSERT, found '
+                   f'{len(case_ins)} and {len(glob_ins)}')
+        return
+    ce, ge = case_ins[0], glob_ins[0]
+    cc, gc, cs, gs = ce.anchor, ge.anchor, ce.sql, ge.sql
+    cn, gn = ctx.node_of(cc), ctx.node_of(gc)
+    if len(cn) != 1 or len(gn) != 1 or cn[0] is gn[0]:
+        out.unsure(rfn, cc, 'inserts share a statement or are duplicated by a finally block; shape not recognised')
+        return
+    cn, gn = cn[0], gn[0]
+    seen_tables.setdefault(cs.table, []).append(kind)
+
+    # A. one transaction of the right connection
+    c_conn = ctx.conn_of(ce.recv, cn)
+    g_conn = ctx.conn_of(ge.recv, gn)
+    if c_conn is None or g_conn is None:
+        out.unsure(rfn, cc if c_conn is None else gc, 'cannot resolve the connection of this cursor')
+        return
+    if c_conn != g_conn:
+        out.bad(rfn, gc, f'the two inserts go through different connections ({c_conn} / {g_conn}): '
+                'they can never be one transaction', key='pair-one-transaction')
+        return
+    w = ctx.txn_with(cc, c_conn)
+    if w is None or not lex_inside(gc, w, 'body'):
+        which = cc if w is None else gc
+        has_commit = any(astx.callee_attr(c) == 'commit' for c in astx.calls(fn.node))
+        if has_commit:
+            out.unsure(rfn, which, 'inserts are not inside one `with <connection>`; explicit commit() '
+                       'protocol not recognised')
+        else:
+            out.bad(rfn, which, f'this INSERT is not inside the `with {c_conn}` transaction of the other '
+                    'insert of the pair: a kill between the two commits leaves a case row without its '
+                    f'{GLOBAL} row (or vice versa)', key='pair-one-transaction')
+        return
+
+    # B. order: case row first on every path
+    wit = g.dominated_by(gn, [cn])
+    if wit is not None:
+        out.bad(rfn, gc, f'{GLOBAL} row can be written without the case row having been inserted first '
+                f'(lastrowid is then stale): {g.fmt_path(wit)}', key='pair-order')
+        return
+
+    # C. walk the region between the two inserts
+    evmap = {}
+    for e in evs:
+        evmap.setdefault(id(e.anchor), []).append(e)
+    verdict = _between(ctx, w, cn, gn, ce, ge, evmap)
+    if verdict is not None:
+        kind_, node, why, key = verdict
+        (out.bad if kind_ == 'bad' else out.unsure)(rfn, node, why, **({'key': key} if kind_ == 'bad' else {}))
+        return
+
+    # D. the link: rowid parameter is lastrowid of the cursor that executed the case insert
+    params = ge.params
+    if params is None or 'rowid' not in gs.cols or 'record_type' not in gs.cols or \
+            len(params.elts) != len(gs.cols):
+        out.unsure(rfn, gc, f'parameters/columns of the {GLOBAL} insert not recognised')
+        return
+    cur_case = ctx.cursor_id(ce.recv, cn)
+    rowid = params.elts[gs.cols.index('rowid')]
+    at = gn
+    hops = 0
+    while isinstance(rowid, ast.Name) and hops < 3:
+        ds = ctx.rd.defs(at, rowid.id)
+        v = ctx.rd.value(at, rowid.id)
+        if v is None or len(ds) != 1:
+            break
+        d = next(iter(ds))
+        if g.dominated_by(d, [cn]) is not None:
+            out.bad(rfn, d.ast, f'`{rowid.id}` (used as rowid of the {GLOBAL} row) is computed before the '
+                    'case INSERT ran', key='rowid-link')
+            return
+        rowid, at = v, d
+        hops += 1
+    if not (isinstance(rowid, ast.Attribute) and rowid.attr == 'lastrowid'):
+        out.bad(rfn, gc, f'rowid of the {GLOBAL} row is `{astx.src(rowid)}`, not `lastrowid` of the cursor '
+                f'that inserted the case row: the row points at another (or no) case of {cs.table}',
+                key='rowid-link')
+        return
+    cur_link = ctx.cursor_id(rowid.value, at)
+    if cur_case is None or cur_link is None or cur_case != cur_link:
+        out.bad(rfn, gc, f'`{astx.src(rowid)}` is not read from the cursor object that executed the case '
+                f'INSERT (`{astx.src(ce.recv)}.execute`): lastrowid is unrelated to the new '
+                'case row', key='rowid-link')
+        return
+
+    # E. record_type literal names the table the case row went to
+    rt = params.elts[gs.cols.index('record_type')]
+    rts = astx.const_str(rt)
+    if rts is None:
+        out.unsure(rfn, gc, 'record_type parameter is not a string literal')
+        return
+    if ctabs.get(rts) != cs.table:
+        out.bad(rfn, gc, f"record_type {rts!r} makes the reader look up rowid in {ctabs.get(rts)!r} but the "
+                f'case row was inserted into {cs.table}', key='record-type-table')
+        return
+    via = ''.join(f' (via {x})' for x in sorted({e.via for e in (ce, ge) if e.via} |
+                                               ({fn.qualname} if fn is not rfn else set())))
+    out.ok(rfn, w, f'{cs.table} + {GLOBAL}({rts!r}, {astx.src(rowid)}) in one `with {c_conn}`; no way out '
+           f'of the transaction between them{via}')
+
+
+def _between(ctx, w, cn, gn, ce, ge, evmap):
     """Explore everything that can happen after the case insert and before the global insert."""
     g = ctx.g
-    cur_case = ctx.cursor_id(astx.receiver(cc), cn)
+    cc, gc = ce.anchor, ge.anchor
+    cur_case = ctx.cursor_id(ce.recv, cn)
 
     def inside(n):
         if n.kind in ('entry', 'exit', 'raise'):
@@ -495,7 +723,6 @@ def _between(ctx, fn, w, cn, gn, cc, gc, conn):
     # 2. normal continuation after the case insert
     seen = set()
     todo = [(m, lab) for m, lab in g.succ[cn] if lab != 'exc']
-    par = {}
     while todo:
         n, lab = todo.pop()
         if not inside(n):
@@ -524,15 +751,15 @@ def _between(ctx, fn, w, cn, gn, cc, gc, conn):
             if nm in ENDERS and isinstance(c.func, ast.Attribute):
                 return ('bad', c, f'`{astx.src(c)}` between the two inserts ends the transaction: the case '
                         f'row is committed (or discarded) without its {GLOBAL} row', 'commit-between')
-            if nm in EXEC_NAMES and isinstance(c.func, ast.Attribute):
-                s = parse_sql(c)
+            for e in evmap.get(id(c), []):
+                s = e.sql
                 if s is None:
                     return ('unsure', c, 'non-literal SQL executed between the two inserts', None)
                 if s.verb in TXN_VERBS:
                     return ('bad', c, f'`{s.verb}` executed between the two inserts ends the transaction',
                             'commit-between')
                 if s.verb in ('INSERT', 'REPLACE'):
-                    if cur_case is not None and ctx.cursor_id(astx.receiver(c), n) == cur_case:
+                    if cur_case is not None and ctx.cursor_id(e.recv, n) == cur_case:
                         return ('bad', c, 'another INSERT on the same cursor between the two inserts '
                                 f'overwrites lastrowid: the {GLOBAL} row points at the wrong row',
                                 'rowid-link')
@@ -553,6 +780,62 @@ WHO_TABLED = {
 BAD_PRAGMAS = ('JOURNAL_MODE', 'SYNCHRONOUS', 'LOCKING_MODE', 'WRITABLE_SCHEMA')
 
 
+def _param_sites(repo, fn, ctx, c, at):
+    """For an execute on an (unmodified) parameter of a private method: the call sites of that method in
+    sqlite_recorder.py as (caller Func, call, connection path or None, enclosing txn-with or None)."""
+    r = astx.receiver(c)
+    if not (isinstance(r, ast.Name) and ctx.rd.defs(at, r.id) == {ctx.g.entry}):
+        return None
+    if '.' not in fn.qualname or not fn.name.startswith('_') or fn.name.startswith('__'):
+        return None
+    sites = []
+    for f2 in rec_funcs(repo):
+        if f2 is fn:
+            continue
+        ctx2 = None
+        for c2 in astx.calls(f2.node):
+            if _self_method(repo, f2, c2) is not fn:
+                continue
+            env = _bind(fn, c2)
+            if env is None or r.id not in env:
+                return None
+            ctx2 = ctx2 or Ctx(f2)
+            cn2 = ctx2.conn_of(env[r.id], ctx2.node_of(c2)[0])
+            sites.append((f2, c2, cn2, ctx2.txn_with(c2, cn2) if cn2 is not None else None))
+    # the method must not escape as a value (bound-method reference) anywhere in the module
+    for f2 in rec_funcs(repo):
+        for n in astx.walk(f2.node):
+            if isinstance(n, ast.Attribute) and n.attr == fn.name and not (
+                    isinstance(getattr(n, '_parent', None), ast.Call) and n._parent.func is n):
+                return None
+    return sites or None
+
+
+def _sql_sites(repo, fn, c):
+    """For an execute whose SQL text comes from parameters of a private method: [(caller, call, Sql)]."""
+    arg0 = astx.arg(c, 0, 'sql')
+    if arg0 is None or '.' not in fn.qualname or not fn.name.startswith('_') or fn.name.startswith('__'):
+        return None
+    pnames = {x.arg for x in fn.node.args.args} - {'self'}
+    if not any(isinstance(n, ast.Name) and n.id in pnames for n in ast.walk(arg0)):
+        return None
+    for st in astx.walk_stmts(fn.node.body):
+        for t in astx.assigned_targets(st):
+            if isinstance(t, ast.Name) and t.id in pnames:
+                return None
+    sites = []
+    for f2 in rec_funcs(repo):
+        for c2 in astx.calls(f2.node):
+            if f2 is fn or _self_method(repo, f2, c2) is not fn:
+                continue
+            env = _bind(fn, c2)
+            sql = sql_of(_subst(arg0, env)) if env is not None else None
+            if sql is None:
+                return None
+            sites.append((f2, c2, sql))
+    return sites or None
+
+
 @rule('C18.who', floor=37)
 def who(repo, out):
     """Every write statement of sqlite_recorder.py runs inside a `with` of its own connection."""
@@ -562,53 +845,78 @@ def who(repo, out):
             continue
         ctx = Ctx(fn)
         for c in calls:
-            nm = astx.callee_attr(c)
-            if nm == 'executescript':
+            if astx.callee_attr(c) == 'executescript':
                 out.bad(fn, c, 'executescript() commits any pending transaction before running and runs its '
                         'statements in autocommit mode: per-case atomicity is lost', key='executescript')
                 continue
             s = parse_sql(c)
             if s is None or s.verb is None:
-                out.unsure(fn, c, 'SQL text is not a literal')
+                sites = _sql_sites(repo, fn, c)
+                if sites is None:
+                    out.unsure(fn, c, 'SQL text is not a literal')
+                    continue
+                for f2, c2, s2 in sites:      # the statement as executed for each caller's SQL text
+                    _who_one(repo, out, fn, ctx, c, s2, f2, c2)
                 continue
-            if s.verb == 'SELECT':
-                out.ok(fn, c, 'read only')
-                continue
-            if s.verb == 'PRAGMA':
-                what = _up(s.toks[1]) if len(s.toks) > 1 else ''
-                if what in BAD_PRAGMAS:
-                    out.bad(fn, c, f'PRAGMA {s.toks[1]} changes the journalling the atomic-commit guarantee '
-                            'rests on', key='pragma')
-                else:
-                    out.unsure(fn, c, 'PRAGMA not in the analysed vocabulary')
-                continue
-            if s.verb in TXN_VERBS:
-                out.unsure(fn, c, 'explicit transaction control statement: protocol not recognised')
-                continue
-            if s.verb not in WRITE_VERBS:
-                out.unsure(fn, c, f'unknown SQL verb {s.verb}')
-                continue
-            at = ctx.node_of(c)[0]
-            conn = ctx.conn_of(astx.receiver(c), at)
-            if conn is None:
-                out.unsure(fn, c, 'cannot resolve the connection this statement runs on')
-                continue
-            w = ctx.txn_with(c, conn)
-            if w is not None:
-                out.ok(fn, c, f'{s.verb} {s.table if isinstance(s.table, str) else "?"} inside `with {conn}`')
-                continue
-            why = WHO_TABLED.get((fn.qualname, s.verb))
-            if why is not None:
-                out.ok(fn, c, 'tabled: ' + why)
-                continue
-            other = [a for a in astx.ancestors(c) if isinstance(a, ast.With) and ctx.with_conn(a)]
-            extra = ''
-            if other:
-                extra = f' (the enclosing `with {ctx.with_conn(other[0])}` manages a different connection)'
-            out.bad(fn, c, f'{s.verb} on {conn} outside any `with {conn}` transaction{extra}: the row stays in '
-                    'an open implicit transaction of unknown extent, so what a kill preserves is no longer '
-                    'one case at a time', key=f'write-outside-transaction-{s.verb.lower()}-'
-                    f'{s.table if isinstance(s.table, str) else "x"}')
+            _who_one(repo, out, fn, ctx, c, s, fn, c)
+
+
+def _who_one(repo, out, fn, ctx, c, s, wfn, wnode):
+    """Classify one executed statement (SQL *s*, execute call *c* in *fn*), reported at (wfn, wnode)."""
+    tname = s.table if isinstance(s.table, str) else '?'
+    if s.verb is None:
+        out.unsure(wfn, wnode, 'SQL text is not a literal')
+    elif s.verb == 'SELECT':
+        out.ok(wfn, wnode, 'read only')
+    elif s.verb == 'PRAGMA':
+        what = _up(s.toks[1]) if len(s.toks) > 1 else ''
+        if what in BAD_PRAGMAS:
+            out.bad(wfn, wnode, f'PRAGMA {s.toks[1]} changes the journalling the atomic-commit guarantee '
+                    'rests on', key='pragma')
+        else:
+            out.unsure(wfn, wnode, 'PRAGMA not in the analysed vocabulary')
+    elif s.verb in TXN_VERBS:
+        out.unsure(wfn, wnode, 'explicit transaction control statement: protocol not recognised')
+    elif s.verb not in WRITE_VERBS:
+        out.unsure(wfn, wnode, f'unknown SQL verb {s.verb}')
+    else:
+        key = f'write-outside-transaction-{s.verb.lower()}-{tname if tname != "?" else "x"}'
+        at = ctx.node_of(c)[0]
+        conn = ctx.conn_of(astx.receiver(c), at)
+        if conn is None:
+            sites = _param_sites(repo, fn, ctx, c, at)
+            if sites is None:
+                out.unsure(wfn, wnode, 'cannot resolve the connection this statement runs on')
+                return
+            loose = [(f2, c2, cn2) for f2, c2, cn2, w2 in sites if w2 is None and cn2 is not None]
+            unres = [(f2, c2) for f2, c2, cn2, w2 in sites if cn2 is None]
+            if unres:
+                out.unsure(unres[0][0], unres[0][1], f'cannot resolve the connection handed to {fn.qualname}')
+            elif loose:
+                f2, c2, cn2 = loose[0]
+                out.bad(f2, c2, f'{fn.qualname} executes {s.verb} on the cursor/connection it is given, and '
+                        f'this call hands it one of {cn2} outside any `with {cn2}` transaction', key=key)
+            else:
+                for f2, c2, cn2, w2 in sites:     # one obligation per site where the statement executes
+                    out.ok(f2, c2, f'{s.verb} {tname} (executed by {fn.qualname} on the cursor passed here) '
+                           f'inside `with {cn2}`')
+            return
+        w = ctx.txn_with(c, conn)
+        if w is not None:
+            out.ok(wfn, wnode, f'{s.verb} {tname} inside `with {conn}`' +
+                   (f' of {fn.qualname}' if wfn is not fn else ''))
+            return
+        why = WHO_TABLED.get((fn.qualname, s.verb))
+        if why is not None:
+            out.ok(wfn, wnode, 'tabled: ' + why)
+            return
+        other = [a for a in astx.ancestors(c) if isinstance(a, ast.With) and ctx.with_conn(a)]
+        extra = ''
+        if other:
+            extra = f' (the enclosing `with {ctx.with_conn(other[0])}` manages a different connection)'
+        out.bad(wfn, wnode, f'{s.verb} on {conn} outside any `with {conn}` transaction{extra}: the row stays in '
+                'an open implicit transaction of unknown extent, so what a kill preserves is no longer '
+                'one case at a time', key=key)
 
 
 # --------------------------------------------------------------------------- C18.init
@@ -1146,6 +1454,34 @@ _GUARD_PROB = ("        if not self._database_initialized:\n"
                "                               \" `run_model()`, `run_driver()`, or `final_setup()` \"\n"
                "                               \"must be called after adding a recorder.\")\n\n")
 
+_HELPER_AT = "    def record_iteration_driver(self, driver, data, metadata):\n"
+_HELPER_DEF = (REC, _HELPER_AT,
+               "    def _insert_global_iteration(self, cursor, record_type, source):\n"
+               "        link = (record_type, cursor.lastrowid, source)\n"
+               "        cursor.execute(\"INSERT INTO global_iterations(record_type, rowid, source) VALUES(?,?,?)\",\n"
+               "                       link)\n\n" + _HELPER_AT)
+_DRV_WHOLE_OLD = ("            with self.connection as c:\n"
+                  "                c = c.cursor()  # need a real cursor for lastrowid\n\n"
+                  "                c.execute(\"INSERT INTO driver_iterations(counter, iteration_coordinate, \"\n"
+                  "                          \"timestamp, success, msg, inputs, outputs, residuals) \"\n"
+                  "                          \"VALUES(?,?,?,?,?,?,?,?)\",\n"
+                  "                          (self._counter, self._iteration_coordinate,\n"
+                  "                           metadata['timestamp'], metadata['success'], metadata['msg'],\n"
+                  "                           inputs_text, outputs_text, residuals_text))\n\n" + _DRV_GLOB)
+_DRV_WHOLE_CALL = ("            self._write_case(\"INSERT INTO driver_iterations(counter, iteration_coordinate, \"\n"
+                   "                             \"timestamp, success, msg, inputs, outputs, residuals) \"\n"
+                   "                             \"VALUES(?,?,?,?,?,?,?,?)\",\n"
+                   "                             (self._counter, self._iteration_coordinate,\n"
+                   "                              metadata['timestamp'], metadata['success'], metadata['msg'],\n"
+                   "                              inputs_text, outputs_text, residuals_text),\n"
+                   "                             'driver', driver._get_name())")
+_WHOLE_HELPER = ("    def _write_case(self, case_sql, case_row, record_type, source):\n"
+                 "        with self.connection as conn:\n"
+                 "            cur = conn.cursor()\n"
+                 "            cur.execute(case_sql, case_row)\n"
+                 "            cur.execute(\"INSERT INTO global_iterations(record_type, rowid, source) VALUES(?,?,?)\",\n"
+                 "                        (record_type, cur.lastrowid, source))\n\n")
+
 selftest(
     'C18',
     # ---- txn
@@ -1325,6 +1661,24 @@ selftest(
     Mutant('open-reader-immutable', RDR, "        with sqlite3.connect(metadata_filename) as con:",
            "        with sqlite3.connect('file:%s?immutable=1' % metadata_filename, uri=True) as con:",
            'C18.connect'),
+    # ---- extracted helpers: the accepted shape (twins below) broken in the ways that matter
+    Mutant('txn-helper-called-after-with', REC, _DRV_GLOB,
+           "            self._insert_global_iteration(c, 'driver', driver._get_name())", ['C18.txn', 'C18.who'],
+           also=[_HELPER_DEF]),
+    Mutant('txn-helper-rowid-is-counter', REC, _DRV_GLOB,
+           "                self._insert_global_iteration(c, 'driver', driver._get_name())", 'C18.txn',
+           also=[(_HELPER_DEF[0], _HELPER_DEF[1], _HELPER_DEF[2].replace('cursor.lastrowid', 'self._counter'))]),
+    Mutant('txn-helper-given-other-cursor', REC, _DRV_GLOB,
+           "                self._insert_global_iteration(self.connection.cursor(), 'driver', driver._get_name())",
+           'C18.txn', also=[_HELPER_DEF]),
+    Mutant('txn-helper-wrong-record-type', REC, _PROB_GLOB,
+           "                self._insert_global_iteration(c, 'driver', metadata['name'])", 'C18.txn',
+           also=[_HELPER_DEF]),
+    Mutant('txn-whole-pair-helper-two-withs', REC, _DRV_WHOLE_OLD, _DRV_WHOLE_CALL, 'C18.txn',
+           also=[(REC, _HELPER_AT, _WHOLE_HELPER.replace(
+               "            cur.execute(\"INSERT INTO global_iterations",
+               "        with self.connection as conn:\n            cur = conn.cursor()\n"
+               "            cur.execute(\"INSERT INTO global_iterations") + _HELPER_AT)]),
     # ---- writers
     Mutant('writers-reader-repairs-file', RDR, "        cur.execute('select * from global_iterations')\n",
            "        cur.execute('DELETE FROM global_iterations WHERE rowid IS NULL')\n"
@@ -1379,6 +1733,18 @@ selftest(
          "        with sqlite3.connect(str(filename)) as con:"),
     Twin('twin-reader-uri-rw', RDR, "        with sqlite3.connect(metadata_filename) as con:",
          "        with sqlite3.connect(f'file:{metadata_filename}?mode=rw', uri=True) as con:"),
+    Twin('twin-global-insert-helper', REC, _DRV_GLOB,
+         "                self._insert_global_iteration(c, 'driver', driver._get_name())",
+         also=[_HELPER_DEF,
+               (REC, _PROB_GLOB, "                self._insert_global_iteration(c, 'problem', metadata['name'])"),
+               (REC, "                c.execute(\"INSERT INTO global_iterations(record_type, rowid, source) VALUES(?,?,?)\",\n"
+                     "                          ('system', c.lastrowid, source_system))",
+                "                self._insert_global_iteration(c, 'system', source_system)"),
+               (REC, "                c.execute(\"INSERT INTO global_iterations(record_type, rowid, source) VALUES(?,?,?)\",\n"
+                     "                          ('solver', c.lastrowid, source_solver))",
+                "                self._insert_global_iteration(source=source_solver, record_type='solver', cursor=c)")]),
+    Twin('twin-whole-pair-helper', REC, _DRV_WHOLE_OLD, _DRV_WHOLE_CALL,
+         also=[(REC, _HELPER_AT, _WHOLE_HELPER + _HELPER_AT)]),
     Twin('twin-select-between', REC, _SYS_SRC,
          _SYS_SRC + "                c.execute(\"SELECT count(*) FROM system_iterations\")\n\n"),
 )
